@@ -138,22 +138,24 @@ Definition dispersion_at (fib : fiber) (f : Q) : res Q :=
   end.
 Definition beta2 (pi : Q) (fib : fiber) (f : Q) : res Q :=
   let* d := dispersion_at fib f in
-  Ok (- (sq (c_light / f) * d) / (2 * pi * c_light)).
+  Ok (Qred (- (sq (c_light / f) * d) / (2 * pi * c_light))).
 
 (* numpy.polyfit(x, y, 2)[1]: linear coefficient of the least-squares parabola (normal equations,
    Cramer's rule; exact).  Fewer than 3 distinct abscissae make the system singular. *)
 Definition det3 (a b c d e f g h i : Q) : Q :=
-  a * (e * i - f * h) - b * (d * i - f * g) + c * (d * h - e * g).
-Definition psum (k : nat) (xs : list Q) : Q := qsum (map (fun x => Qpower x (Z.of_nat k)) xs).
+  Qred (a * Qred (e * i - f * h)) - Qred (b * Qred (d * i - f * g)) + Qred (c * Qred (d * h - e * g)).
+(* Qred only normalises the representation (Qred q == q); it keeps the exact evaluation small *)
+Definition qsum_red (l : list Q) : Q := fold_right (fun x s => Qred (x + s)) 0 l.
+Definition psum (k : nat) (xs : list Q) : Q := qsum_red (map (fun x => Qpower (Qred x) (Z.of_nat k)) xs).
 Definition pmom (k : nat) (xs ys : list Q) : Q :=
-  qsum (map (fun xy => Qpower (fst xy) (Z.of_nat k) * snd xy) (combine xs ys)).
+  qsum_red (map (fun xy => Qpower (Qred (fst xy)) (Z.of_nat k) * snd xy) (combine xs ys)).
 Definition polyfit2_lin (xs ys : list Q) : res Q :=
   let s0 := psum 0 xs in let s1 := psum 1 xs in let s2 := psum 2 xs in
   let s3 := psum 3 xs in let s4 := psum 4 xs in
   let t0 := pmom 0 xs ys in let t1 := pmom 1 xs ys in let t2 := pmom 2 xs ys in
-  let d := det3 s4 s3 s2 s3 s2 s1 s2 s1 s0 in
+  let d := Qred (det3 s4 s3 s2 s3 s2 s1 s2 s1 s0) in
   if Qeq_bool d 0 then Err "LinAlg:rank-deficient-polyfit"%string
-  else Ok (det3 s4 t2 s2 s3 t1 s1 s2 t0 s0 / d).
+  else Ok (Qred (Qred (det3 s4 t2 s2 s3 t1 s1 s2 t0 s0) / d)).
 
 Fixpoint mapM {A B} (f : A -> res B) (l : list A) : res (list B) :=
   match l with
@@ -231,10 +233,11 @@ Definition propagate_path (pi : Q) (els : list element) (f : Q) (a : acc) : res 
 (* ------------------------------------------------------------------------------------------------
    Raman on, method 'numerical': the explicit Euler scheme of
    calculate_unidirectional_stimulated_raman_scattering on the merged grid [(z_i, lumped_i)]:
-     P_j(i) = P_j(i-1) * (1 + (-alpha_j + sum_k cr_jk P_k(i-1)) * (z_i - z_{i-1})) * lumped_{i-1}   *)
+     P_j(i) = P_j(i-1) * (1 + (-alpha_j + sum_k cr_jk P_k(i-1)) * (z_i - z_{i-1})) * lumped_{i-1}
+   (Qred only normalises the representation: Qred q == q) *)
 Definition dot (r p : list Q) : Q := qsum (map (fun rp => fst rp * snd rp) (combine r p)).
 Definition euler_step (alpha : list Q) (cr : list (list Q)) (dz ll : Q) (p : list Q) : list Q :=
-  map (fun t => let '(pj, (aj, crj)) := t in pj * (1 + (- aj + dot crj p) * dz) * ll)
+  map (fun t => let '(pj, (aj, crj)) := t in Qred (pj * (1 + (- aj + Qred (dot crj p)) * dz) * ll))
       (combine p (combine alpha cr)).
 Fixpoint euler (alpha : list Q) (cr : list (list Q)) (grid : list (Q * Q)) (p : list Q) : list Q :=
   match grid with
@@ -248,7 +251,7 @@ Fixpoint euler (alpha : list Q) (cr : list (list Q)) (grid : list (Q * Q)) (p : 
 (* the same scheme for the loss profile g = P / P_in (no division: P_k = p0_k * g_k) *)
 Definition euler_step_g (alpha : list Q) (cr : list (list Q)) (p0 : list Q) (dz ll : Q) (g : list Q) : list Q :=
   let p := map (fun pg => fst pg * snd pg) (combine p0 g) in
-  map (fun t => let '(gj, (aj, crj)) := t in gj * (1 + (- aj + dot crj p) * dz) * ll)
+  map (fun t => let '(gj, (aj, crj)) := t in Qred (gj * (1 + (- aj + Qred (dot crj p)) * dz) * ll))
       (combine g (combine alpha cr)).
 Fixpoint euler_g (alpha : list Q) (cr : list (list Q)) (p0 : list Q) (grid : list (Q * Q)) (g : list Q) : list Q :=
   match grid with
